@@ -91,6 +91,10 @@ pub struct MutSpec {
     pub cap: u16,
     pub len: u16,
     pub limit: Option<Limit>,
+    /// Capacity 2^32 + cap (address space only): lengths beyond what the
+    /// 32-bit length fields can say.
+    #[serde(default)]
+    pub huge: bool,
 }
 
 #[derive(Clone, Debug, Serialize, Deserialize)]
@@ -371,6 +375,10 @@ struct MutTruth {
     base: usize,
     cap: usize,
     limit: Option<usize>,
+    /// More spare capacity than a u32 can hold: how much of it a view exposes
+    /// is the implementation's choice (<= the truth), but every view and every
+    /// reported number must agree on it.
+    huge: bool,
 }
 
 impl MutTruth {
@@ -385,16 +393,16 @@ impl MutTruth {
 fn build_mut(spec: &MutSpec, salt: usize) -> (AnyMut, MutTruth) {
     let cap = (spec.cap as usize).min(4000);
     let len = (spec.len as usize).min(cap);
-    let mut v = Vec::with_capacity(cap);
+    let mut v = Vec::with_capacity(if spec.huge { (1usize << 32) + cap } else { cap });
     v.extend((0..len).map(|j| (j * 13 + salt) as u8));
     let truth_cap = v.capacity();
     let base = v.as_ptr().addr();
     let content = v.clone();
     match spec.limit {
-        None => (AnyMut::Vec(v), MutTruth { content, base, cap: truth_cap, limit: None }),
+        None => (AnyMut::Vec(v), MutTruth { content, base, cap: truth_cap, limit: None, huge: spec.huge }),
         Some(l) => {
             let limit = l.value(truth_cap - len);
-            (AnyMut::Limited(BufMut::limit(v, limit)), MutTruth { content, base, cap: truth_cap, limit: Some(limit) })
+            (AnyMut::Limited(BufMut::limit(v, limit)), MutTruth { content, base, cap: truth_cap, limit: Some(limit), huge: spec.huge })
         }
     }
 }
@@ -403,7 +411,8 @@ fn check_mut_view<B: BufMut>(buf: &mut B, truth: &MutTruth, what: &str) -> Resul
     let exposed = truth.exposed();
     let (ptr, len) = unsafe { buf.parts_mut() };
     let len = len as usize;
-    if len != exposed {
+    let acceptable = if truth.huge && exposed > u32::MAX as usize { len <= exposed } else { len == exposed };
+    if !acceptable {
         return Err(format!("limit:{what}: parts_mut() exposes {len} bytes, expected {exposed} (spare {}, limit {:?})", truth.spare(), truth.limit));
     }
     if len > 0 {
@@ -433,7 +442,7 @@ fn run_single_mut(spec: &MutSpec, n: u16, extend: u16) -> Result<Vec<&'static st
     let mut classes = vec![];
     let (ptr, len) = check_mut_view(&mut buf, &truth, "bufmut")?;
     // Mark n bytes initialised (written through the exposed pointer first).
-    let n = scale(n, len);
+    let n = scale(n, len.min(9000));
     for j in 0..n {
         unsafe { ptr.add(j).write(0xA0 ^ j as u8) };
     }
@@ -616,7 +625,10 @@ fn check_mut_slice<B: BufMutSlice<N>, const N: usize>(bufs: &mut B, truths: &[Mu
     let mut total = 0usize;
     let mut out = Vec::new();
     for (k, (iov, truth)) in raw.iter().zip(truths).enumerate() {
-        let want = truth.exposed().min(left);
+        let mut want = truth.exposed().min(left);
+        if truth.huge && want > u32::MAX as usize && iov.iov_len <= want {
+            want = iov.iov_len;
+        }
         left -= want;
         if iov.iov_len != want {
             return Err(format!("limit:{what}: iovec {k} has length {}, expected {want} (element spare {}, outer limit {limit:?})", iov.iov_len, truth.exposed()));
@@ -632,7 +644,8 @@ fn check_mut_slice<B: BufMutSlice<N>, const N: usize>(bufs: &mut B, truths: &[Mu
         total += want;
     }
     let reported = bufs.total_spare_capacity() as usize;
-    if reported != total {
+    // (A u32: the best a total beyond 2^32-1 can do is saturate.)
+    if reported != total.min(u32::MAX as usize) {
         return Err(format!("len-agree:{what}: total_spare_capacity() = {reported} but the iovecs total {total} (outer limit {limit:?})"));
     }
     if bufs.has_spare_capacity() != (total > 0) {
@@ -660,7 +673,7 @@ fn run_mut_slice(array: bool, specs: &[MutSpec], limit: Option<Limit>, n: u16, e
     fn scenario<B: BufMutSlice<N>, const N: usize>(bufs: &mut B, truths: &mut [MutTruth], lim: &mut Option<usize>, n: u16, extend: u16, what: &str) -> Result<(), String> {
         let views = check_mut_slice(bufs, truths, *lim, what)?;
         let total: usize = views.iter().map(|v| v.1).sum();
-        let n = scale(n, total);
+        let n = scale(n, total.min(9000));
         // Write n bytes through the exposed pointers, in order, then set_init(n).
         let mut left = n;
         let mut counter = 0usize;
@@ -753,7 +766,7 @@ fn buf_spec() -> impl Strategy<Value = BufSpec> {
 }
 
 fn mut_spec() -> impl Strategy<Value = MutSpec> {
-    (0u16..3000, any::<u16>(), proptest::option::weighted(0.35, limit_strategy())).prop_map(|(cap, l, limit)| MutSpec { cap, len: if cap == 0 { 0 } else { ((l as u32 * (cap as u32 + 1)) >> 16) as u16 }, limit })
+    (0u16..3000, any::<u16>(), proptest::option::weighted(0.35, limit_strategy()), proptest::bool::weighted(0.06)).prop_map(|(cap, l, limit, huge)| MutSpec { cap: if huge { cap % 40 } else { cap }, len: if cap == 0 { 0 } else { ((l as u32 * (cap as u32 + 1)) >> 16) as u16 % if huge { 20 } else { u16::MAX } }, limit, huge })
 }
 
 impl Property for C14 {
